@@ -130,6 +130,16 @@ claim("C11",
       "environment (temporaries' values, item path = list path ++ [index]) is assumed by the theorems and established by the oracle.",
       "Lean 4 proof (denotational correctness of the emitted path expression, by structural recursion) + get oracle under the real runtime")
 
+claim("C01",
+      "PARTIAL proof. Lean 4 theorems for the two places where totality is arithmetic or loop progress: scanRadix_spec / scanDec_spec (the oct / hex / dec literal scanners never "
+      "overflow: they return the exact integer up to i64::MAX and the float branch beyond, for digit strings of any length) and iter_progress / loop_terminates (every iteration of "
+      "the attribute-recovery loop consumes input; the stop test is re-extracted from the source each run). Everything else is observation: every input runs through add_tmpl, "
+      "all artefacts, stringify + re-parse and the stylesheet transformer in isolated worker processes with an address-space limit and time budgets (a dead or late worker names "
+      "its input exactly), over generated, mutated, raw and hand-written hostile inputs at the nesting bound, plus scaling runs (n, 2n, 4n) of 21 input families.",
+      "Trusted: Lean kernel; axioms ⊆ {propext, Classical.choice, Quot.sound}; extractor; differential tie of the number model; OS isolation / RLIMIT_AS / wall clock as the "
+      "observation. A theorem cannot exhibit stack exhaustion, allocator aborts or timing: termination and panic-freedom of the compilers as a whole are NOT proved.",
+      "Lean 4 proof (partial: scanner arithmetic, recovery-loop progress) + isolated-worker totality and scaling runs")
+
 claim("C02",
       "PARTIAL proof. Lean 4 theorems: every allocated identifier is an IdentifierName, never a reserved word / relied-upon global, never a preserved A–Z name, and distinct "
       "counters give distinct names (tables VAR_NAME_* and the reserved list re-extracted from the source each run); every string literal decodes (C12); every value "
